@@ -34,11 +34,13 @@ VarsAgree(st, e) ==
 \* game enables, report completion iff the game is complete, hold exactly
 \* the pending requests of the game and the game's variable store
 FinOK(st, e) ==
-  /\ {m \in ObsMoves(st) : m.lab.ev # "cease"} = {}
+  \* (a delivery that raced with a token's arrival may have been dropped)
+  /\ {m \in ObsMoves(st) : m.lab.ev # "cease" /\ ~(m.lab.ev = "observed" /\ m.lab.occ = 1)} = {}
   \* with nothing left for the environment to do, a merely allowed move must
   \* have happened as well
   /\ ReqToks(st) = {} => MayMoves(st) = {}
-  /\ e.n = Cardinality(ReqToks(st))
+  \* (requests interrupted by a boundary event stay unanswered unless the driver answers them)
+  /\ e.n = Cardinality(ReqToks(st)) + Cardinality(st.intr)
   /\ VarsAgree(st, e)
   /\ IF st.ceased THEN e.ok ELSE (~e.ok /\ ~Complete(st))
 
@@ -60,7 +62,9 @@ StepSet0(st, e) ==
                            ELSE {}
     [] e.ev = "cease"   -> Matching(st, Lab("cease", "", 0)) \cup Matching(DropErr(st), Lab("cease", "", 0))
     [] e.ev = "ans"     ->
-         {CloseTau(AnswerAny(st, t, e.vars, e.kind, e.n)) : t \in {t \in ReqToks(st) : t.at = e.node /\ t.occ = e.occ}}
+         IF <<e.node, e.occ>> \in st.intr      \* interrupted request: no effect
+         THEN {[st EXCEPT !.intr = @ \ {<<e.node, e.occ>>}]}
+         ELSE {CloseTau(AnswerAny(st, t, e.vars, e.kind, e.n)) : t \in {t \in ReqToks(st) : t.at = e.node /\ t.occ = e.occ}}
     \* a candidate payload of a set of concurrently issued first answers
     [] e.ev = "cand"    ->
          {[st EXCEPT !.tok = AddToks(DelTok(@, t), {[t EXCEPT !.cands = @ \cup {e.vars}]})]
@@ -74,6 +78,18 @@ StepSet0(st, e) ==
          IF /\ e.node \in DOMAIN st.reqn /\ e.occ <= st.reqn[e.node]
             /\ ~\E t \in ReqToks(st) : t.at = e.node /\ t.occ = e.occ
          THEN {st} ELSE {}
+    [] e.ev = "visit"   -> Matching(st, Lab("visit", e.node, 0))
+    [] e.ev = "listening" -> Matching(st, Lab("listening", e.node, 0))
+    [] e.ev = "deliver"   -> {CloseTau(Deliver(st, e.kind, e.node))}
+    [] e.ev = "delivered" -> {CloseTau(Delivered(st, e.kind, e.node))}
+    \* an observation at a node where the game has no listener is not an effect
+    \* on the instance (e.g. a withdrawn alternative still reporting): ignored
+    [] e.ev = "observed"  ->
+         IF e.node \in DOMAIN st.inbox /\ Listeners(st, e.node) # {}
+         THEN {CloseTau(m.s) : m \in {m \in ObsMoves(st) :
+                  m.lab.ev = "observed" /\ m.lab.node = e.node /\ m.lab.arg = <<e.kind, e.flows[1]>>}}
+         ELSE {st}
+    [] e.ev = "determination" -> Matching(st, Lab("determination", e.node, 0))
     [] e.ev = "wait"    -> IF WaitOK(st, e) THEN {st} ELSE {}
     [] e.ev = "fin"     -> IF FinOK(st, e) THEN {st} ELSE {}
     [] e.ev = "timeout" -> {st}
